@@ -123,7 +123,7 @@ def main():
     if not args.no_lean:
         if hasattr(mod, 'translate'):
             gen_info = mod.translate()       # regenerate Generated/*.lean from /repo
-        rc, out, bt = leanaudit.build(['HealSparse.Props.' + pid, 'hsdriver'])
+        rc, out, bt = leanaudit.build(leanaudit.prop_modules(pid) + ['hsdriver'])
         forbidden = leanaudit.forbidden_tokens(pid)
         if rc == 0:
             lean = leanaudit.audit(pid)
@@ -136,7 +136,7 @@ def main():
     # thorough tier: independent re-check of the compiled module with leanchecker
     leanchecker = None
     if not args.no_lean and tier == 'thorough' and lean['rc'] == 0:
-        rc2, out2 = leanaudit.sh("lake env leanchecker HealSparse.Props.%s" % pid, timeout=1800)
+        rc2, out2 = leanaudit.sh("lake env leanchecker " + ' '.join(leanaudit.prop_modules(pid)), timeout=1800)
         leanchecker = {'rc': rc2, 'tail': out2[-300:]}
         if rc2 != 0:
             lean['rc'] = rc2
@@ -229,7 +229,7 @@ def main():
         'coverage': {
             'obligations': max(obligations, 1) if not args.no_lean else 1,
             'discharged': discharged,
-            'checker_cmd': 'cd lean && lake build HealSparse.Props.%s && lake env lean Audit/%s.lean' % (pid, pid),
+            'checker_cmd': 'cd lean && lake build %s && lake env lean Audit/%s.lean' % (' '.join(leanaudit.prop_modules(pid)), pid),
             'trusted_base': [
                 'Lean 4.33.0 kernel',
                 'axioms allowed: propext, Classical.choice, Quot.sound (audited per theorem, listed under theorems)',
